@@ -216,6 +216,7 @@ int World::exec_frame(const Op &op) {
         case OP_frame_rows: {
             size_t n = (size_t) r.range(0, 9);
             if (r.chance(1, 4)) n = nrows + (size_t) r.range(0, 2);
+            else if (a[5] == 1) n = (size_t) r.range(257, 420);                              // "long frame" runs (see gen.cpp)
             else if (r.chance(1, 25)) n = (size_t) r.range(10, 300);                         // more than one chunk
             else if (r.chance(1, 100)) n = (size_t) ((1 << r.range(8, 9)) + r.range(-1, 1));   // next to a power of two
             df.rows(n);
